@@ -355,6 +355,50 @@ func c18Spaces(tier string) []c18Space {
 			return "text T {\n\tformat(\"aa bb cc dd\", \"TEST\", " + lit + ", numLines=" + lit + ", cursorOverlapWidth=" + lit + ")\n}\nscript S2 {\n\tmsgbox(format(\"aa bb cc\", " + lit + "))\n}\n" // (every movement multiplier value is in C14)
 		}
 	}})
+	// long text literals: every content length N up to 2100 bytes (and some far beyond) x what stands at the start / end of
+	// the content (nothing, an unclosed or closed brace code, a backslash, a multi-byte character, spaces only) x origin
+	longNs := []int{4094, 4095, 4096, 4097, 8192, 16384, 32768, 65534, 65535, 65536, 70000}
+	const longVariants, longOrigins, longMaxN = 8, 4, 2100
+	spaces = append(spaces, c18Space{kind: "long-texts", total: uint64(longMaxN+1+len(longNs)) * longVariants * longOrigins, input: func(idx uint64) string {
+		origin := int(idx % longOrigins)
+		idx /= longOrigins
+		variant := int(idx % longVariants)
+		idx /= longVariants
+		n := int(idx)
+		if n > longMaxN {
+			n = longNs[n-longMaxN-1]
+		}
+		fill := strings.Repeat("a", n)
+		var content string
+		switch variant {
+		case 0:
+			content = fill
+		case 1:
+			content = "{" + fill // an unclosed brace code followed by n characters
+		case 2:
+			content = fill + "{"
+		case 3:
+			content = "{" + fill + "}"
+		case 4:
+			content = fill + `\`
+		case 5:
+			content = fill + "é"
+		case 6:
+			content = strings.Repeat(" ", n)
+		default:
+			content = strings.Repeat("ab ", n/3) + "{X"
+		}
+		switch origin {
+		case 0:
+			return "text T {\n\t\"" + content + "\"\n}\n"
+		case 1:
+			return "script S {\n\tmsgbox(\"" + content + "\")\n}\n"
+		case 2:
+			return "text T {\n\tformat(\"" + content + "\")\n}\n"
+		default:
+			return "script S {\n\tmsgbox(ascii\"" + content + "\")\n\tx(custom\"" + content + "\")\n}\n"
+		}
+	}})
 	// character strings
 	nC := uint64(len(c18Chars))
 	var chOffsets []uint64
@@ -698,5 +742,5 @@ func runC18(tier string) int {
 		"configurations are a covering set, not the full matrix: every option value appears in at least one configuration",
 		"an error must be a parser.ParseError with 1 <= start line <= end line <= number of lines (counting the empty line after a final newline)")
 	return r.Finish(r.Get("evaluations"), r.Get("nontrivial"),
-		"(a) every sequence of <= L tokens from a 57-lexeme alphabet after each of 29 context prefixes, with 3 suffixes; (b) every single deviation (truncation, deletion, replacement or insertion by every alphabet token) of 12 seed programs that use every production (thorough: pairs of deviations on the small seeds); (c) every sequence of <= S well-formed statement templates (27 templates, shared with C01); (d) every sequence of <= D constant definitions over three names whose values mention each other, followed by a program using them at every use site; (e) every integer from 0 to 70000 (thorough 2^20) and 20 values around 2^31, 2^32, 2^63, 2^64 and powers of ten, decimal and hex, at every position that interprets a number; (e') every scaled program (templates repeated K times, blocks nested K deep, switches with K cases); (f) every string of <= N characters over 23 characters incl. multi-byte letters, a 3-byte non-letter, U+FFFD, NUL, quote, backtick, CR, bare and inside 'script S { x('; each input under a covering set of configurations (optimize, line markers/path, switches, font file/default font, command configs incl. argument positions -1 and 3 and one whose keys are the identifier-like literals of the compiler's source and its keywords, normal and lint); evaluations = input x configuration runs; non-trivial = the input is rejected (an error path is taken)")
+		"(a) every sequence of <= L tokens from a 57-lexeme alphabet after each of 29 context prefixes, with 3 suffixes; (b) every single deviation (truncation, deletion, replacement or insertion by every alphabet token) of 12 seed programs that use every production (thorough: pairs of deviations on the small seeds); (c) every sequence of <= S well-formed statement templates (29 templates, shared with C01); (d) every sequence of <= D constant definitions over three names whose values mention each other, followed by a program using them at every use site; (e) every integer from 0 to 70000 (thorough 2^20) and 20 values around 2^31, 2^32, 2^63, 2^64 and powers of ten, decimal and hex, at every position that interprets a number; (e') every scaled program (templates repeated K times, blocks nested K deep, switches with K cases); (g) text literals of every length up to 2100 bytes (and 11 lengths up to 70000) x 8 start/end shapes (unclosed / closed brace code, trailing backslash, multi-byte end, spaces only) x 4 origins; (f) every string of <= N characters over 23 characters incl. multi-byte letters, a 3-byte non-letter, U+FFFD, NUL, quote, backtick, CR, bare and inside 'script S { x('; each input under a covering set of configurations (optimize, line markers/path, switches, font file/default font, command configs incl. argument positions -1 and 3 and one whose keys are the identifier-like literals of the compiler's source and its keywords, normal and lint); evaluations = input x configuration runs; non-trivial = the input is rejected (an error path is taken)")
 }
